@@ -15,6 +15,7 @@ def sh(cmd):
     return r.returncode, r.stdout + r.stderr
 
 def demo_result():
+    sh("touch src/lib.rs")   # a hard-linked, pre-warmed target dir can hold a test binary cargo believes is fresh
     rc, out = sh(f"cargo test --lib --offline -j 8 {demo}")
     ok = 'test result: ok' in out and ' 0 passed' not in out.split('test result: ok')[1][:40]
     failed = 'test result: FAILED' in out
